@@ -242,7 +242,17 @@ func c08Headers(r *Run) {
 				_, wfT = map[string]bool{"5S": true, "100m": true, "1H": true, "99999999H": true, "3u": true, "00000001n": true, "0S": true, "0n": true, "00000000H": true, "0m": true}[valsOf[j]]
 			}
 		}
-		if nT == 1 && wfT && err == nil && out != "in" {
+		// … and a malformed entry is ignored, not obeyed: a well-formed one after it still counts
+		wfAny := false
+		wfSet := map[string]bool{"5S": true, "100m": true, "1H": true, "99999999H": true, "3u": true, "00000001n": true, "0S": true, "0n": true, "00000000H": true, "0m": true}
+		for j := range keysOf {
+			if strings.EqualFold(keysOf[j], "grpc-timeout") && wfSet[valsOf[j]] {
+				wfAny = true
+			}
+		}
+		if wfAny && err == nil && out != "in" {
+			r.Violate("headers.server.nodeadline", "ops", "the request carries a well-formed grpc-timeout header (after a malformed one, which is to be ignored) but the handler's context has no deadline", inp, out, "a deadline")
+		} else if nT == 1 && wfT && err == nil && out != "in" {
 			r.Violate("headers.server.nodeadline", "ops", "a well-formed grpc-timeout header did not give the handler's context a deadline", inp, out, "a deadline")
 		}
 	}
